@@ -4,7 +4,10 @@ Areas (harness go/cmd/c03, all sixteen configurations D1..D16 instantiated at co
   fx       operations whose exact intermediates and result are representable (the hypotheses of the theorems hold;
            classified in the generator with math/big): implementation vs model, line by line
   fxwrap   operations that overflow somewhere, or divide by zero: wrap-around / panic behaviour, model vs implementation;
-           outside the hypotheses of the property, so a difference is recorded as model drift, not as a violation
+           outside the hypotheses of the property, so a difference is recorded as model drift, not as a violation.
+           Mod is NOT in this stream unless its divisor is zero: since the fix "Mod computes the remainder directly" it
+           has no intermediate product, its exact result always fits, and every Mod with b != 0 is judged in area fx
+           (C03.f64_mod_spec / f128_mod_spec need only b != 0)
   fxcfg    Places()/Multiplier() of every configuration against k / 10^k computed by the harness (oracle)
   fxfloatm float paths of From / As (float64 and float32 kinds): implementation vs the Lean model
            (Model/FixedFloat.lean on the binary64 model GoSem.F64), raw for raw and bit for bit
@@ -150,7 +153,7 @@ def run(ctx):
     gentie.run(ctx, target="f128", generated="SSA_F128.lean", module="Props.C03Gen128", key="f128",
                namespace="C03Gen128", deps=[("num", "SSA_Num.lean", "c01gen.lock")])
     ctx.harness("./cmd/c03", overlay=OVERLAY)
-    thm = ("C03.f64_mul_spec / f64_div_spec / f64_mod_spec / f64_trunc_spec / f64_ceil_spec / f64_round_spec / "
+    thm = ("C03.f64_mul_spec / f64_div_spec / f64_mod_spec (every non-zero divisor) / f64_trunc_spec / f64_ceil_spec / f64_round_spec / "
            "f64_from_int_exact / f64_as_int_exact (and the f128_ twins), f64_f128_agree, mul_rational … : the model "
            "equals exact decimal arithmetic truncated toward zero under the representability hypotheses, which hold "
            "for every line of this stream; impl != model on this input")
